@@ -287,6 +287,21 @@ pdf = pl.DataFrame({"a": [-1, 2]})
 out["pl_data_fail_df"] = run(pap.DataFrameSchema({"a": pap.Column(pl.Int64, pa.Check.gt(0))}), pdf)
 out["pl_data_fail_lf"] = run(pap.DataFrameSchema({"a": pap.Column(pl.Int64, pa.Check.gt(0))}), pdf.lazy())
 out["pl_schema_fail_lf"] = run(pap.DataFrameSchema({"a": pap.Column(pl.Utf8)}), pdf.lazy())
+# a config_context entered on top of the environment's settings wins while it is active
+out["ctx"] = {}
+for depth in ("SCHEMA_ONLY", "DATA_ONLY", "SCHEMA_AND_DATA"):
+    with config.config_context(validation_enabled=True, validation_depth=config.ValidationDepth[depth]):
+        out["ctx"][depth] = {
+            "data_fail": run(pa.DataFrameSchema({"a": pa.Column(int, pa.Check.gt(0))}), df),
+            "schema_fail": run(pa.DataFrameSchema({"a": pa.Column(str)}), df),
+            "pl_data_fail_df": run(pap.DataFrameSchema({"a": pap.Column(pl.Int64, pa.Check.gt(0))}), pdf),
+            "pl_data_fail_lf": run(pap.DataFrameSchema({"a": pap.Column(pl.Int64, pa.Check.gt(0))}), pdf.lazy()),
+            "pl_schema_fail_df": run(pap.DataFrameSchema({"a": pap.Column(pl.Utf8)}), pdf),
+            "pl_schema_fail_lf": run(pap.DataFrameSchema({"a": pap.Column(pl.Utf8)}), pdf.lazy()),
+        }
+d = dataclasses.asdict(config.get_config_context(validation_depth_default=None))
+d["validation_depth"] = None if d["validation_depth"] is None else d["validation_depth"].name
+out["context_after"] = d
 print("RESULT " + json.dumps(out))
 """
 
@@ -318,7 +333,7 @@ def eval_env_e2e(case):
             ev.add(f"env-not-in-context:{k}", {"env": env, "expected": exp[k], "observed": out["context"].get(k)})
     depth = exp["validation_depth"] or "SCHEMA_AND_DATA"
     if not exp["validation_enabled"]:
-        want = {k: "same-object" for k in out if k not in ("config", "context")}
+        want = {k: "same-object" for k in out if k not in ("config", "context", "ctx", "context_after")}
     else:
         want = {
             "schema_fail": "raised" if depth != "DATA_ONLY" else "same-or-other",
@@ -334,6 +349,18 @@ def eval_env_e2e(case):
         ok = (got in ("same-object", "other-object")) if w == "same-or-other" else (got == w)
         if not ok:
             ev.add(f"env-e2e-behaviour:{k}", {"env": env, "expected": w, "observed": got})
+    # inside config_context(validation_enabled=True, validation_depth=D) the context's settings apply whatever the
+    # environment says
+    for d, got_d in out["ctx"].items():
+        for k, got in got_d.items():
+            data_level = "data_fail" in k
+            raised = (d != "SCHEMA_ONLY") if data_level else (d != "DATA_ONLY")
+            ok = (got == "raised") if raised else (got in ("same-object", "other-object"))
+            if not ok:
+                ev.add(f"context-over-env-behaviour:{k}:ctx={d}",
+                       {"env": env, "context_depth": d, "expected": "raised" if raised else "accepted", "observed": got})
+    if out["context_after"] != out["context"]:
+        ev.add("context-over-env-not-restored", {"env": env, "before": out["context"], "after": out["context_after"]})
     return ev
 
 
